@@ -233,6 +233,26 @@ Record ustate := mkU {
 
 Definition u_start (z : zone) : ustate := mkU z z true true false.
 
+(* serial of a SOA id as the harness builds it: id / 2 *)
+Definition soa_serial (id : N) : N := id / 2.
+
+(* the SOA a reader of the RRset sees first: the most recently pushed one *)
+Definition z_first_soa (z : zone) : option N :=
+  match filter is_soa z with Soa s :: _ => Some s | _ => None end.
+
+(* ZoneUpdater::check_soa_serial (present when tools/gen/C10.py finds the call in
+   the BeginBatchDelete arm, Gen.updater_checks_batch_soa): the SOA that opens a
+   batch must carry the serial of the zone version being edited.
+   Error::SoaMismatch = 5 *)
+Definition E_SoaMismatch : N := 5.
+Definition batch_soa_ok (chk : bool) (s : N) (w : zone) : bool :=
+  if chk then
+    match z_first_soa w with Some x => soa_serial x =? soa_serial s | None => false end
+  else true.
+
+Section Updater.
+Variable chk : bool.
+
 (* Error::Finished = 3 (shared number with the interpreter's Finished) *)
 Definition with_root (st : ustate) (f : zone -> zone) : outcome ustate :=
   if u_open st then Ok (mkU (u_visible st) (f (u_working st)) true (u_write st) (u_fin st))
@@ -251,7 +271,12 @@ Definition u_apply (u : upd) (st : ustate) : outcome ustate :=
       if u_open st then Ok (mkU (u_visible st) [] true (u_write st) (u_fin st)) else Ok st
   | UDelete r => with_root st (z_delete r)
   | UAdd r => with_root st (cons r)
-  | UBeginDel _ =>
+  | UBeginDel s =>
+      do _ <- (if chk then
+                 if u_open st then
+                   if batch_soa_ok chk s (u_working st) then Ok tt else Err E_SoaMismatch
+                 else Panic 2
+               else Ok tt);
       do st1 <- u_commit st;
       if u_write st1 then Ok (mkU (u_visible st1) (u_working st1) true true (u_fin st1))
       else Err E_Finished
@@ -282,6 +307,8 @@ Fixpoint u_transfers (uss : list (list upd)) (z : zone) : outcome (list zone) :=
       do zs <- u_transfers rest (u_visible st);
       Ok (u_visible st :: zs)
   end.
+
+End Updater.
 
 (* ---- sender side: the record sequences (xfr middleware ZoneFunneler /
    DiffFunneler order) ---- *)
@@ -361,8 +388,6 @@ Inductive dop :=
 Definition d_existing (k : N) (st : dstate) : list N :=
   match s_get k (ds_work st) with Some v => snd v | None => [] end.
 
-(* serial of a SOA id as the harness builds it: id / 2 *)
-Definition soa_serial (id : N) : N := id / 2.
 
 (* WriteZone::commit(false): Some (removed, added) when a diff is returned *)
 Definition d_commit (st : dstate) : dstate * option (store * store) :=
@@ -423,7 +448,7 @@ Definition d_start (pub : store) : dstate := mkD pub pub [] [].
 
 (* ---- entry points for the correspondence driver ---- *)
 Definition c10_run (ms : list msg) : list upd * status := run None ms.
-Definition c10_apply (z0 : zone) (us : list upd) : outcome ustate := u_apply_all us (u_start z0).
-Definition c10_transfers (z0 : zone) (uss : list (list upd)) : outcome (list zone) := u_transfers uss z0.
+Definition c10_apply (z0 : zone) (us : list upd) : outcome ustate := u_apply_all updater_checks_batch_soa us (u_start z0).
+Definition c10_transfers (z0 : zone) (uss : list (list upd)) : outcome (list zone) := u_transfers updater_checks_batch_soa uss z0.
 Definition c10_check (first : bool) (h : hdr) : bool := check_response first h.
 Definition c10_diff (pub : store) (ops : list dop) : list (option (store * store)) := snd (d_run ops (d_start pub)).
